@@ -196,7 +196,9 @@ func jsonWide(t *rapid.T, lim Limits) *refenc.JNode {
 		}
 		tpl = append(tpl, s)
 	}
-	sizes := []int{90, 130, 300, 700, 1500, 3000}
+	// 6000 and more members: the two entry tables of an object alone are longer than 64 KiB, so every key
+	// offset needs more than 16 bits
+	sizes := []int{90, 130, 300, 700, 1500, 3000, 6000, 7300}
 	if lim.SmallJSON {
 		sizes = []int{90, 130, 300}
 	}
@@ -205,10 +207,16 @@ func jsonWide(t *rapid.T, lim Limits) *refenc.JNode {
 	if rapid.IntRange(0, 2).Draw(t, "jwide_obj") == 0 {
 		c.K = refenc.JObject
 	}
+	keyPad := ""
+	if c.K == refenc.JObject && !lim.SmallJSON && rapid.IntRange(0, 3).Draw(t, "jwide_long_keys") == 0 {
+		// few members with keys of about 2 KB each: the keys themselves push later keys beyond 64 KiB
+		n = rapid.SampledFrom([]int{36, 40, 64}).Draw(t, "jwide_long_keys_n")
+		keyPad = strings.Repeat("K", rapid.IntRange(1700, 2100).Draw(t, "jwide_key_len"))
+	}
 	for i := 0; i < n; i++ {
 		c.Kids = append(c.Kids, tpl[i%nt])
 		if c.K == refenc.JObject {
-			c.Keys = append(c.Keys, fmt.Sprintf("k%04d", i))
+			c.Keys = append(c.Keys, fmt.Sprintf("k%04d%s", i, keyPad))
 		}
 	}
 	if c.K == refenc.JObject {
